@@ -150,6 +150,11 @@ def c07(run, tier):
     values_family(run, tier, "C07b")
     values_family(run, tier, "C07t")
     values_family(run, tier, "C07s")
+    # the string functions applied to NODES (zero-argument forms, parent / ancestor / root arguments) from every node of every small
+    # document: they work on string-values - text of descendants, no comments, no processing instructions
+    cfg = run.cfg("Gen_C01.cfg", {"MaxNodes": Q(tier, 4, 5), "EmitFam": '"C04"'}, "gen04.cfg")
+    rep = run.tlc_gen_replay("MC_C01", cfg, "nodes", timeout=Q(tier, 1500, 3000))
+    run.absorb(rep, VALUE_ASPECTS)
     values_traces(run, tier)
 
 
